@@ -195,7 +195,7 @@ Json gen_value(Rng& r, const GenCfg& c, int depth = 0) {
     unsigned k = (unsigned)r.below(10);
     if (depth >= c.max_depth || k < 4) return gen_scalar_value<Json>(r, c);
     size_t w = r.below((u64)c.max_width + 1);
-    if (c.wide_sometimes && depth <= 1 && r.chance(1, 40)) w = 20 + r.below(120);
+    if (c.wide_sometimes && depth <= 1 && r.chance(1, 40)) { static const size_t wb[] = {15, 16, 17, 23, 24, 25, 31, 32, 33}; w = r.coin() ? r.pick(wb) : 20 + r.below(120); }   // container-size boundaries of the binary headers
     if (k < 7) {
         Json a(jsoncons::json_array_arg);
         for (size_t i = 0; i < w; ++i) a.push_back(gen_value<Json>(r, c, depth + 1));
